@@ -2,13 +2,14 @@
 (* Model-checking wrapper for Selector and export of the cases (database, matcher set, the series the       *)
 (* DEFINITION selects, the series the transcribed MECHANISM selects, the traits) that harness/cmd/c17        *)
 (* concretises and runs through the real selectors.                                                          *)
-(* Plans = set of numbers 100*s + m (TLC configuration files have no tuples): all databases of <= s series x all matcher sets of <= m matchers are cases       *)
+(* Plan1, Plan2 = numbers 100*s + m (0 = unused; TLC configuration files have no tuples): all databases of <= s series x all matcher sets of <= m matchers are cases       *)
 (* (checked as states under CONSTRAINT PlanOK and exported); on top SampleDB x SampleMS random databases /   *)
 (* matcher sets of the bounds SampleSeries / SampleMatchers are exported (and checked inside Export).        *)
 EXTENDS Selector, Json, Randomization
 
-CONSTANTS Plans, SampleDB, SampleMS, SampleSeries, SampleMatchers, OutFile
+CONSTANTS Plan1, Plan2, SampleDB, SampleMS, SampleSeries, SampleMatchers, OutFile
 
+Plans == {Plan1, Plan2} \ {0}
 PS(p) == p \div 100
 PM(p) == p % 100
 MSetsK(k) == UpTo(Matchers, k) \ (IF AllowEmpty THEN {} ELSE {{}})
@@ -20,12 +21,22 @@ InPlan(d, M) == \E p \in Plans : Cardinality(d) <= PS(p) /\ Cardinality(M) <= PM
 PlanOK == IsCase => InPlan(db, ms)
 
 CaseOf(d, M) == [db |-> d, ms |-> M, def |-> Selected(d, M), mech |-> MechSelected(d, M), traits |-> Traits(d, M)]
-PlanCases == UNION {{CaseOf(d, M) : d \in UpTo(Series, PS(p)), M \in MSetsK(PM(p))} : p \in Plans}
+\* (no UNION / \cup of the case sets: TLC's union of large non-normalised sets is quadratic; the plans are exported
+\* side by side and merged by the reader)
+CasesOf(p) == IF p = 0 THEN {} ELSE {CaseOf(d, M) : d \in UpTo(Series, PS(p)), M \in MSetsK(PM(p))}
 SampleCases == IF SampleDB = 0 \/ SampleMS = 0 THEN {}
                ELSE {CaseOf(d, M) : d \in RandomSubset(SampleDB, UpTo(Series, SampleSeries)),
                                     M \in RandomSubset(SampleMS, MSetsK(SampleMatchers))}
-Export == LET C == PlanCases \cup SampleCases IN
-          /\ JsonSerialize(OutFile, [names |-> [kv |-> KV, gl |-> GL], cases |-> C])
-          /\ \A c \in C : /\ c.traits = {} => c.def = c.mech          \* MechEqDefOnSafe on the sampled cases as well
-                          /\ c.def \subseteq c.db /\ c.mech \subseteq c.db
+CaseOK(c) == /\ c.traits = {} => c.def = c.mech          \* MechEqDefOnSafe on the sampled cases as well
+             /\ c.def \subseteq c.db /\ c.mech \subseteq c.db
+\* (TLC evaluates constant-level definitions when it starts, so the export happens in every run of this module;
+\*  OutFile = "" switches it off)
+Export == OutFile = "" \/
+          LET C1 == CasesOf(Plan1)
+              C2 == CasesOf(Plan2)
+              CS == SampleCases IN
+          /\ JsonSerialize(OutFile, [names |-> [kv |-> KV, gl |-> GL], cases |-> C1, cases2 |-> C2, sampled |-> CS])
+          /\ \A c \in C1 : CaseOK(c)
+          /\ \A c \in C2 : CaseOK(c)
+          /\ \A c \in CS : CaseOK(c)
 =============================================================================
